@@ -86,4 +86,8 @@ def main(argv=None):
     some_pvl = pvl.load(args.infile)
 
     formats[args.output_format].dump(some_pvl, args.outfile)
+
+    # Nobody closes the output file, so at least do not leave the
+    # text in its buffer.
+    args.outfile.flush()
     return
